@@ -1,9 +1,302 @@
 import Driver.Util
+import MpcVerif.Model.Iknp
+import MpcVerif.Model.Clmul
+import MpcVerif.Model.Kos
 
+/-!
+Line-protocol handler of property C15.
+
+  mul   <a> <b>                    `mul128(a, b)` -> `<lo><hi>` (and the Karatsuba form must agree)
+  clmul <a64> <b64>                `clmul64(a, b)` -> `<lo><hi>`
+  inner <labels a> <labels b>      `vectorInnPrdtSumNoRed(a, b)` -> `<lo><hi>`
+  sess  <stape> <rtape> <n> <choices> <faults>
+        one malicious-mode call on a fresh pair (Delta = first label of the
+        sender's tape; receiver tape = 256 base-OT labels, then b0, b1, seed2),
+        honest transcript + for every fault the sender's outcome:
+          A       error return
+          =       success, outputs equal the honest outputs
+          K<hex>  success with these (different) outputs
+        A fault is `atoms` joined by `+`; atom `D<m>.<off>.<mask>` XORs the byte
+        mask into byte `off` of SendData message `m`, `L<k>.<off>.<mask>` into
+        byte `off` of SendLabel value `k` (0 seed2, 1 x, 2 t0, 3 t1).  The
+        outcome is computed from the acceptance condition of
+        `C15_kos_accept_iff` (`Kos.residual` on the rows the atoms touch); with
+        prefix `!`, or when the seed is altered, ALSO by running the model
+        `Kos.sendKos` on the altered messages (and the dense `Kos.residual`):
+        all must agree.
+-/
 namespace Drv.C15
+open Mpc Drv Mpc.Iknp Mpc.Clmul Mpc.Kos
 
-/-- Line-protocol handler of property C15 (stub). -/
-def handle (_args : List String) : String := "bad-op"
+def hexDigit (n : Nat) : Char := if n < 10 then Char.ofNat (48 + n) else Char.ofNat (87 + n)
+
+def labelsHex (ls : List Label) : String :=
+  if ls.isEmpty then "-" else String.join (ls.map hex128)
+
+def toBytes (b : ByteArray) : Bytes := mk b.size fun k => BitVec.ofNat 8 (b[k]!).toNat
+
+/-- Key-stream bytes consumed per column by a call with `n` rows. -/
+def colBytes (n : Nat) : Nat := (n / 512) * 64 + ((n % 512) + 7) / 8
+
+/-- AES-CTR key stream (zero IV) of an `ot.Label` key: `newPrg`. -/
+def streamBA (key : ByteArray) (ofs : Nat) (total : Nat) : ByteArray :=
+  match Aes.Cipher.new (key.extract ofs (ofs + 16)) with
+  | none => ByteArray.empty
+  | some c => Aes.ctrStream c 0#128 total
+
+structure Pair where
+  delta : Label
+  r0 : Array Bytes
+  r1 : Array Bytes
+
+def Pair.R0 (p : Pair) (i pos : Nat) : Byte := bget (p.r0.getD i #[]) pos
+def Pair.R1 (p : Pair) (i pos : Nat) : Byte := bget (p.r1.getD i #[]) pos
+def Pair.SS (p : Pair) (i pos : Nat) : Byte := if labelBit p.delta i then p.R1 i pos else p.R0 i pos
+
+def mkPair (stape rtape : ByteArray) (total : Nat) : Option Pair :=
+  if stape.size < 16 || rtape.size < 2 * K * 16 then none else
+  some { delta := label128 stape 0,
+         r0 := mk K fun i => toBytes (streamBA rtape (32 * i) total),
+         r1 := mk K fun i => toBytes (streamBA rtape (32 * i + 16) total) }
+
+/-- The first `cnt` labels of the challenge stream of `seed` (`prgLabels`). -/
+def chiTable (seed : Label) (cnt : Nat) : Array Label :=
+  let s := streamBA (Aes.bytesOfNat128 seed.toNat) 0 (16 * cnt)
+  mk cnt fun r => label128 s (16 * r)
+
+/-- Challenge generator from precomputed tables (anything else: zero). -/
+def mkX (tbls : List (Label × Array Label)) : Label → Nat → Label := fun seed r =>
+  match tbls.find? (fun t => t.1 == seed) with
+  | some t => t.2.getD r 0#128
+  | none => 0#128
+
+def pHex (p : P) : String := hex128 p.1 ++ hex128 p.2
+
+/-! ### mul / clmul / inner -/
+
+def parseLabel (s : String) : Option Label := do
+  let b ← Aes.bytesOfHex s
+  if b.size ≠ 16 then none else some (label128 b 0)
+
+def parseLabels (s : String) : Option (Array Label) :=
+  if s == "-" then some #[] else do
+    let b ← Aes.bytesOfHex s
+    if b.size % 16 ≠ 0 then none else some (mk (b.size / 16) fun i => label128 b (16 * i))
+
+def parseW64 (s : String) : Option W64 := do
+  let b ← Aes.bytesOfHex s
+  if b.size ≠ 8 then none else
+  some (BitVec.ofNat 64 (Id.run do
+    let mut n := 0
+    for t in [0:8] do
+      n := (n <<< 8) ||| (b[t]!).toNat
+    return n))
+
+def w64Hex (w : W64) : String := Id.run do
+  let mut s := ""
+  for i in [0:16] do
+    s := s.push (hexDigit ((w.toNat >>> (4 * (15 - i))) % 16))
+  return s
+
+def handleMul (a b : String) : String :=
+  match parseLabel a, parseLabel b with
+  | some a, some b =>
+    let p := mul128 a b
+    if mul128Karatsuba a b == p then pHex p else "SPLIT-karatsuba " ++ pHex p ++ " " ++ pHex (mul128Karatsuba a b)
+  | _, _ => "bad-op"
+
+def handleClmul (a b : String) : String :=
+  match parseW64 a, parseW64 b with
+  | some a, some b => let p := clmul64 a b; w64Hex p.1 ++ w64Hex p.2
+  | _, _ => "bad-op"
+
+def handleInner (a b : String) : String :=
+  match parseLabels a, parseLabels b with
+  | some a, some b => pHex (innerNoRed a b)
+  | _, _ => "bad-op"
+
+/-! ### sessions -/
+
+inductive Atom where
+  | data (m off mask : Nat)
+  | label (k off mask : Nat)
+
+structure Fault where
+  full : Bool
+  atoms : List Atom
+
+def parseHexNat (s : String) : Option Nat :=
+  s.toList.foldlM (fun acc c => do let d ← Aes.hexVal c; pure (16 * acc + d)) 0
+
+def parseAtom (s : String) : Option Atom := do
+  let kind ← s.toList.head?
+  match ((s.drop 1).toString.splitOn ".") with
+  | [a, off, mask] =>
+    let a ← a.toNat?
+    let off ← off.toNat?
+    let mask ← parseHexNat mask
+    if kind == 'D' then some (.data a off mask)
+    else if kind == 'L' then some (.label a off mask) else none
+  | _ => none
+
+def parseFault (s : String) : Option Fault := do
+  let full := s.startsWith "!"
+  let body := if full then (s.drop 1).toString else s
+  if body == "" then some ⟨full, []⟩ else
+  let atoms ← (body.splitOn "+").mapM parseAtom
+  some ⟨full, atoms⟩
+
+def parseFaults (s : String) : Option (List Fault) :=
+  if s == "-" then some [] else (s.splitOn ";").mapM parseFault
+
+/-- XOR mask on a label from byte masks (byte `off` of the big-endian 16-byte form). -/
+def labelMask (atoms : List Atom) (k : Nat) : Label :=
+  atoms.foldl (fun acc a =>
+    match a with
+    | .label k' off mask => if k' = k ∧ off < 16 then acc ^^^ BitVec.ofNat 128 (mask % 256 <<< (8 * (15 - off))) else acc
+    | _ => acc) 0#128
+
+/-- Dense error masks of the shape of `msgs` for the data atoms (message
+indices offset by `base`). -/
+def denseMasks (msgs : List Bytes) (base : Nat) (atoms : List Atom) : List Bytes :=
+  (List.range msgs.length).map fun m =>
+    let sz := (msgs.getD m #[]).size
+    let hits := atoms.filterMap fun a =>
+      match a with
+      | .data m' off mask => if m' = base + m ∧ off < sz then some (off, mask) else none
+      | _ => none
+    if hits.isEmpty then mk sz fun _ => 0#8
+    else mk sz fun k => hits.foldl (fun acc h => if h.1 = k then acc ^^^ BitVec.ofNat 8 h.2 else acc) 0#8
+
+/-- The label with only Go bit `j` set. -/
+def bitLabel (j : Nat) : Label := 1#128 <<< labelPos j
+
+/-- Sparse rows of the error matrix: `(global row, label)` for every bit the
+data atoms flip inside the matrix (rows of the last byte-row beyond the batch
+size are not part of it).  `sizes1/sizes2`: chunk sizes of payload / check
+batch. -/
+def sparseRows (n : Nat) (sizes1 sizes2 : List Nat) (atoms : List Atom) : List (Nat × Label) :=
+  let add (acc : List (Nat × Label)) (row : Nat) (l : Label) : List (Nat × Label) :=
+    if acc.any (fun e => e.1 = row) then acc.map fun e => if e.1 = row then (e.1, e.2 ^^^ l) else e
+    else (row, l) :: acc
+  atoms.foldl (fun acc a =>
+    match a with
+    | .data m off mask =>
+      let inPayload := m < sizes1.length
+      let sz := if inPayload then sizes1.getD m 0 else sizes2.getD (m - sizes1.length) 0
+      let w := sz / K
+      if w = 0 ∨ off ≥ sz then acc else
+      let start := if inPayload then m * chunkRows else (m - sizes1.length) * chunkRows
+      let limit := if inPayload then n else 256
+      let base := if inPayload then 0 else n
+      let col := off / w
+      let byteRow := off % w
+      (List.range 8).foldl (fun acc t =>
+        if (mask >>> t) % 2 = 1 then
+          let row := start + byteRow * 8 + t
+          if row < limit then add acc (base + row) (bitLabel col) else acc
+        else acc) acc
+    | _ => acc) []
+
+structure Sess where
+  p : Pair
+  n : Nat
+  b : Array Bool
+  b0 : Label
+  b1 : Label
+  msgs1 : List Bytes
+  msgs2 : List Bytes
+  hon : RecvOut
+  sent : List Label
+  chi : Array Label
+
+def outcomeStr (hon : List Label) (o : Option (List Label)) : String :=
+  match o with
+  | none => "A"
+  | some ls => if ls == hon then "=" else "K" ++ labelsHex ls
+
+/-- Outcome by the acceptance condition (`C15_kos_accept_iff`), sparse form. -/
+def fastOutcome (s : Sess) (atoms : List Atom) : Option (List Label) :=
+  let rows := sparseRows s.n (s.msgs1.map (·.size)) (s.msgs2.map (·.size)) atoms
+  let dx := labelMask atoms 1
+  let dt : P := (labelMask atoms 2, labelMask atoms 3)
+  let er := rows.foldl (fun acc e => pxor acc (mul128 (s.chi.getD e.1 0#128) (e.2 &&& s.p.delta))) pzero
+  let res := pxor (pxor er (mul128 dx s.p.delta)) dt
+  if res == pzero then
+    some ((List.range s.n).map fun r =>
+      match rows.find? (fun e => e.1 = r) with
+      | some e => s.sent.getD r 0#128 ^^^ (e.2 &&& s.p.delta)
+      | none => s.sent.getD r 0#128)
+  else none
+
+/-- Outcome by running the model sender on the altered messages; also the
+dense `Kos.residual` when the seed is intact. -/
+def fullOutcome (s : Sess) (atoms : List Atom) : Option (List Label) × Option Bool :=
+  let E1 := denseMasks s.msgs1 0 atoms
+  let E2 := denseMasks s.msgs2 s.msgs1.length atoms
+  let seed' := s.hon.seed ^^^ labelMask atoms 0
+  let x' := s.hon.x ^^^ labelMask atoms 1
+  let t0' := s.hon.t0 ^^^ labelMask atoms 2
+  let t1' := s.hon.t1 ^^^ labelMask atoms 3
+  let tbls := if seed' == s.hon.seed then [(s.hon.seed, s.chi)]
+    else [(s.hon.seed, s.chi), (seed', chiTable seed' (s.n + 256))]
+  let X := mkX tbls
+  let r := sendKos X s.p.SS s.p.delta SendSt.init s.n (xorMsgs s.msgs1 E1 ++ xorMsgs s.msgs2 E2) [seed', x', t0', t1']
+  let dense : Option Bool :=
+    if seed' == s.hon.seed then
+      some (residual (X s.hon.seed) s.p.delta s.n E1 E2 s.hon.x x' (s.hon.t0, s.hon.t1) (t0', t1') == pzero)
+    else none
+  (r.map (·.labels), dense)
+
+def runFault (s : Sess) (f : Fault) : String :=
+  let seedAltered := labelMask f.atoms 0 != 0#128
+  if seedAltered then
+    outcomeStr s.sent (fullOutcome s f.atoms).1
+  else
+    let fast := fastOutcome s f.atoms
+    if f.full then
+      let (full, dense) := fullOutcome s f.atoms
+      if full == fast ∧ dense == some fast.isSome then outcomeStr s.sent fast
+      else "SPLIT(fast=" ++ outcomeStr s.sent fast ++ ",model=" ++ outcomeStr s.sent full ++ ",dense=" ++ toString dense ++ ")"
+    else outcomeStr s.sent fast
+
+/-- `sess <stape> <rtape> <n> <choices> <faults>` -/
+def handleSess (stape rtape n choices faults : String) : String :=
+  match Aes.bytesOfHex stape, Aes.bytesOfHex rtape, n.toNat?, parseFaults faults with
+  | some stape, some rtape, some n, some fs =>
+    let b := (parseBits choices).toArray
+    if b.size ≠ n ∨ rtape.size < 2 * K * 16 + 48 then "bad-op" else
+    match mkPair stape rtape (colBytes n + 32) with
+    | none => "error"
+    | some p =>
+      let pos := 2 * K * 16
+      let b0 := label128 rtape pos
+      let b1 := label128 rtape (pos + 16)
+      let seed2 := label128 rtape (pos + 32)
+      let chi := chiTable seed2 (n + 256)
+      let X := mkX [(seed2, chi)]
+      let hon := receiveKos X p.R0 p.R1 RecvSt.init b b0 b1 seed2
+      let r1 := receive p.R0 p.R1 RecvSt.init b
+      let msgs1 := r1.2.2
+      let msgs2 := hon.msgs.drop msgs1.length
+      match sendKos X p.SS p.delta SendSt.init n hon.msgs hon.resp with
+      | none => "honest-abort"
+      | some out =>
+        let s : Sess := { p := p, n := n, b := b, b0 := b0, b1 := b1, msgs1 := msgs1, msgs2 := msgs2, hon := hon,
+                          sent := out.labels, chi := chi }
+        let head := s!"resp={labelsHex hon.resp}/s={labelsHex out.labels}/r={labelsHex hon.labels}"
+        let fr := fs.map (runFault s)
+        head ++ "/f=" ++ (if fr.isEmpty then "-" else ";".intercalate fr)
+  | _, _, _, _ => "bad-op"
+
+/-- Line-protocol handler of property C15. -/
+def handle (args : List String) : String :=
+  match args with
+  | ["mul", a, b] => handleMul a b
+  | ["clmul", a, b] => handleClmul a b
+  | ["inner", a, b] => handleInner a b
+  | ["sess", stape, rtape, n, choices, faults] => handleSess stape rtape n choices faults
+  | _ => "bad-op"
 
 end Drv.C15
 
